@@ -591,7 +591,7 @@ func replayRun(prog *Prog, c *VC, o *Obligation, dir, repo string, rep *replayRe
 	rep.TestCmd = "go test -tags verif -overlay <ov.json> -vet=off -count=1 -timeout 60s -run '^TestVerifReplay$' . (in " + strings.TrimPrefix(pkgDir, repo+"/") + ")"
 	rep.TestOutput = prevOut + trunc(string(out), 3000)
 	switch {
-	case strings.Contains(string(out), "VERIF-REPLAY-VIOLATED phase=run runtime error") && strings.Contains(rep.Note, "is not reconstructed"):
+	case strings.Contains(string(out), "VERIF-REPLAY-VIOLATED phase=run") && strings.Contains(rep.Note, "is not reconstructed"):
 		// a run-time panic of the function under test on inputs that could not be built from the
 		// model (nil interfaces, zero structs) says nothing about the obligation
 		rep.Note += "the function panicked on inputs the replay could not reconstruct (not counted as a reproduction)"
